@@ -297,10 +297,10 @@ fn judge(st: &State, sj: &Subject, mode: Mode, receipt: &TransactionReceipt, aft
             let mut tracker_deleted_partitions: BTreeSet<PartitionNumber> = BTreeSet::new();
             let mut own_entry_written = false;
             for ch in &diff {
-                let et = ch.node.entity_type();
+                let et = ch.node.entity_type().map(|e| format!("{e:?}")).unwrap_or_else(|| "UnknownEntity".to_string());
                 let outside = |what: &str| -> (String, String) {
                     (
-                        format!("failed-commit:changed-outside-fee-set:{}:{et:?}:p{}", what, ch.partition.0),
+                        format!("failed-commit:changed-outside-fee-set:{}:{et}:p{}", what, ch.partition.0),
                         format!("a failed commit changed a substate outside the fee-related set: {}", ch.describe()),
                     )
                 };
